@@ -165,7 +165,8 @@ class Kauri(ClusterMixin, BaseEstimator, ABC):
                 kernel = y
         else:
             kernel = pairwise_kernels(X, metric=self.kernel)
-        return kernel
+        # The compiled split search and objective only take double precision buffers
+        return np.asarray(kernel, dtype=np.float64)
 
     def fit(self, X, y=None):
         """Performs the KAURI algorithm by repeatedly choosing leaves, evaluating best gain and increasing the tree
